@@ -32,6 +32,20 @@ HOOKS = {
 
 DEFAULT_CAPS = {'MCAP': 4, 'SCAP': 3, 'ACAP': 6}
 
+# Environment stubs: one guarded early-return line inserted at the top of the body of I/O functions,
+# in the overlay copy only, active only when a harness switches it on (identical under Kani and in the
+# native replay).  (file, regex matching the signature up to and including the opening brace, inserted text)
+ENV_STUBS = [
+    ('merge_ska_array.rs', r'pub fn save\(&self, filename: &str\) -> Result<\(\), Box<dyn Error>> \{\n',
+     '        #[cfg(kani)] if crate::verif_support::stub_io_active() { crate::verif_support::record_save(); return Ok(()); }\n'),
+    ('io_utils.rs', r'pub fn set_ostream\(oprefix: &Option<String>\) -> BufWriter<Box<dyn Write>> \{\n',
+     '    #[cfg(kani)] if crate::verif_support::stub_io_active() { return BufWriter::new(Box::new(Vec::<u8>::new()) as Box<dyn Write>); }\n'),
+    ('merge_ska_array.rs', r'pub fn distance\(&self, constant: f64\) -> Vec<Vec<\(f64, f64\)>> \{\n',
+     '        #[cfg(kani)] if crate::verif_support::rec_distance_active() { crate::verif_support::record_distance(constant, self.variants.nrows()); return Vec::new(); }\n'),
+    ('ska_dict/bloom_filter.rs', r'pub fn init\(&mut self\) \{\n',
+     '        #[cfg(kani)] if crate::verif_support::stub_io_active() { self.buf_size = 4; self.buffer.resize(4, 0); return; }\n'),
+]
+
 
 def make_overlay(dst, caps=None, models=True, harness_dir=None, extra_consts=None, parts=None):
     """Build the overlay in dst (removed first). Returns a description dict for the evidence.
@@ -61,6 +75,16 @@ def make_overlay(dst, caps=None, models=True, harness_dir=None, extra_consts=Non
             s2 = s2.replace('extern crate needletail;', '')
             substituted[rel] = n
             open(p, 'w').write(s2)
+    stubs_inserted = []
+    for rel, pat, ins in ENV_STUBS:
+        p = os.path.join(dst, 'src', rel)
+        txt = open(p).read()
+        m = re.search(pat, txt)
+        if not m:
+            raise RuntimeError('environment stub site not found in %s: %s' % (rel, pat))
+        txt = txt[:m.end()] + ins + txt[m.end():]
+        open(p, 'w').write(txt)
+        stubs_inserted.append(rel + ': ' + ins.strip())
     hooked = []
     for rel, mod in HOOKS.items():
         pdir = os.path.join(harness_dir, mod)
@@ -112,4 +136,4 @@ def make_overlay(dst, caps=None, models=True, harness_dir=None, extra_consts=Non
 }
 #[cfg(kani)] #[path = "%(h)s/support.rs"] pub mod verif_support;
 ''' % {'ov': dst, 'h': harness_dir})
-    return {'caps': caps, 'import_redirections': substituted, 'hooked_files': hooked, 'models': models}
+    return {'caps': caps, 'import_redirections': substituted, 'hooked_files': hooked, 'models': models, 'env_stubs': stubs_inserted}
